@@ -144,8 +144,8 @@ def oracle(parts, outcome, obs):
     return fails
 
 
-CLAIM_PENDING = {
-    "text": "Theorems C11_no_crosstalk_squitter_path / C11_no_crosstalk_downlink_path (Coq, closed): for every row field and every frame, if the frame's class (DF, and for DF17/18 type code and subtype) is not a carrier of that field according to the carrier table written from the property, the field is unchanged by the update, on the squitter path and on the downlink path; together with C03_isolation frames of other aircraft never touch a row. Tied to the code by comparing the FULL row with the model after every prefix of histories over all supported formats for 1-4 aircraft with time steps, +/-U +/-R, and by an oracle for cross-talk, idempotence of re-feeding a frame and rows of other aircraft.",
-    "note": "'latest carrier value' for each parameter is covered through the per-parameter properties (C05, C06, C07, C08, C09, C10) and the full-row correspondence; idempotence is checked by the oracle, not proved.",
+CLAIM = {
+    "text": "Theorems C11_* (Coq, closed): footprints -- for every frame, each update path changes at most the fields listed for the frame's class (DF, type code, subtype), so a frame of a format that does not carry a parameter never changes it (C11_footprint_squitter_path, C11_footprint_downlink_path; per-parameter instances in C05/C06/C07/C09/C10); the reader step replaces exactly the row of the frame's address by the result of exactly one update function (C11_step_existing_row, C11_step_new_row; other rows: C03_isolation); and OVER ALL HISTORIES the latest carrier frame wins: for any projection of the row whose one-step facts hold, every trace of reader steps -- any number of reader runs, any times -- shows at each address the value of a reference fold over the same lines (C11_latest_wins_generic, C11_latest_carrier_wins), instantiated for the squawk (C06_latest_wins) and the callsign (C11_callsign_latest). Tied to the code by comparing the FULL row with the model after every prefix of histories over all supported formats (incl. registers that satisfy two registers' rules) for 1-4 aircraft with time steps, +/-U +/-R, and by an oracle for cross-talk, idempotence of re-feeding a frame and rows of other aircraft.",
+    "note": "The history theorem is instantiated for squawk and callsign; for the other parameters the per-step theorems (C05, C08, C09, C10) plus the generic history theorem apply, and the full-row correspondence after every prefix covers them; idempotence is checked by the oracle, not proved.",
     "technique": "Coq proof: per-function footprints composed over both update paths + carrier table; per-prefix full-row differential runs + oracle",
 }
